@@ -23,7 +23,7 @@ must be identical, otherwise the translator fails closed (the two header variant
 Fails closed (exit 2, message naming the construct) when an expression leaves the supported
 arithmetic subset.  Output files are rewritten only when their content changes.
 """
-import os, re, sys
+import json, os, re, sys
 
 REPO = os.environ.get("REPO", "/repo")
 HERE = os.path.dirname(os.path.abspath(__file__))
@@ -173,148 +173,186 @@ def find1(rx, text, what, flags=re.S):
     return ms[0]
 
 
+def _try(group, fn, failed):
+    try:
+        fn()
+    except TranslateError as e:
+        failed[group] = str(e)
+
+
 def extract(text, variant):
-    """returns dict name -> lean definition body (strings), from one header variant's full text"""
-    d = {}
+    """returns (defs, failed): defs maps name -> (signature, body); failed maps group -> message.
+    Each group of constructs is extracted independently so that a change in one construct only
+    breaks the obligations of the properties that depend on it."""
+    d, failed = {}, {}
     t = strip_comments(text)
 
-    # ---- bitWidth chain
-    m = find1(r"\bbitWidth\s*\(\s*const\s+uint32_t\s+(\w+)\s*\)\s*noexcept\s*\{\s*return(.*?);\s*\}", t, "bitWidth()")
-    var, body = m.group(1), m.group(2)
-    arms = [a.strip() for a in body.split(":")]
-    lean = []
-    for a in arms[:-1]:
-        if "?" not in a:
-            raise TranslateError("bitWidth arm without '?': %r" % a)
-        c, r = a.split("?")
-        lean.append("  if %s then %s else" % (cxx_to_lean(c, {var: "v"}).strip("()") if False else cxx_to_lean(c, {var: "v"}),
-                                               cxx_to_lean(r, {var: "v"})))
-    lean.append("  %s" % cxx_to_lean(arms[-1], {var: "v"}))
-    d["bitWidth"] = ("(v : Nat) : Nat", "\n" + "\n".join(lean))
-    d["bitWidthArms"] = ("", str(len(arms)))
+    def g_bitwidth():
+        # ---- bitWidth chain
+        m = find1(r"\bbitWidth\s*\(\s*const\s+uint32_t\s+(\w+)\s*\)\s*noexcept\s*\{\s*return(.*?);\s*\}", t, "bitWidth()")
+        var, body = m.group(1), m.group(2)
+        arms = [a.strip() for a in body.split(":")]
+        lean = []
+        for a in arms[:-1]:
+            if "?" not in a:
+                raise TranslateError("bitWidth arm without '?': %r" % a)
+            c, r = a.split("?")
+            lean.append("  if %s then %s else" % (cxx_to_lean(c, {var: "v"}).strip("()") if False else cxx_to_lean(c, {var: "v"}),
+                                                   cxx_to_lean(r, {var: "v"})))
+        lean.append("  %s" % cxx_to_lean(arms[-1], {var: "v"}))
+        d["bitWidth"] = ("(v : Nat) : Nat", "\n" + "\n".join(lean))
+        d["bitWidthArms"] = ("", str(len(arms)))
 
-    # ---- contain
-    m = find1(r"\bcontain\s*\(\s*const\s+T\s+(\w+)\s*,\s*const\s+TT\s+(\w+)\s*\)\s*noexcept\s*\{\s*return(.*?);\s*\}", t, "contain()")
-    d["contain"] = ("(x to : Nat) : Nat", cxx_to_lean(m.group(3), {m.group(1): "x", m.group(2): "to"}))
+    _try('bitwidth', g_bitwidth, failed)
 
-    # ---- id types and invalid ids
-    widths = {}
-    for name in ("Short", "Long", "StateID", "Prong"):
-        m = find1(r"^using\s+%s\s*=\s*(\w+)\s*;" % name, t, "using %s" % name, re.M)
-        ty = m.group(1)
-        seen = 0
-        while ty in widths or ty in ("Short", "Long"):
-            if ty in widths:
-                break
-            seen += 1
-            if seen > 4:
-                raise TranslateError("typedef chain for %s" % name)
-            ty = find1(r"using\s+%s\s*=\s*(\w+)\s*;" % ty, t, "using " + ty).group(1)
-        bits = widths.get(ty) or {"uint8_t": 8, "uint16_t": 16, "uint32_t": 32}.get(ty)
-        if bits is None:
-            raise TranslateError("id type %s = %s unsupported" % (name, ty))
-        widths[name] = bits
-        d["bits" + name] = ("", str(bits))
-    for cname, ty in (("INVALID_SHORT", "Short"), ("INVALID_LONG", "Long"), ("INVALID_STATE_ID", "StateID"), ("INVALID_PRONG", "Prong")):
-        m = find1(r"%s\s*=\s*([^;]+);" % cname, t, cname)
-        rhs = m.group(1).strip()
-        m2 = re.fullmatch(r"(\w+)\s*\(\s*-\s*1\s*\)", rhs)
-        m3 = re.fullmatch(r"UINT(8|16|32)_MAX", rhs)
-        if m2 and m2.group(1) in widths:
-            d[cname] = ("", "(2 ^ %d - 1)" % widths[m2.group(1)])
-        elif m3:
-            d[cname] = ("", "(2 ^ %s - 1)" % m3.group(1))
-        elif rhs in ("INVALID_SHORT", "INVALID_LONG"):
-            d[cname] = ("", d[rhs][1])
-        else:
-            raise TranslateError("%s = %s unsupported" % (cname, rhs))
+    def g_contain():
+        # ---- contain
+        m = find1(r"\bcontain\s*\(\s*const\s+T\s+(\w+)\s*,\s*const\s+TT\s+(\w+)\s*\)\s*noexcept\s*\{\s*return(.*?);\s*\}", t, "contain()")
+        d["contain"] = ("(x to : Nat) : Nat", cxx_to_lean(m.group(3), {m.group(1): "x", m.group(2): "to"}))
 
-    # ---- UBitWidth thresholds
-    m = find1(r"using\s+UBitWidth\s*=\s*Conditional<\s*N\s*<=\s*(\d+)\s*,\s*uint(\d+)_t\s*,\s*Conditional<\s*N\s*<=\s*(\d+)\s*,\s*uint(\d+)_t\s*,"
-              r"\s*Conditional<\s*N\s*<=\s*(\d+)\s*,\s*uint(\d+)_t\s*,\s*void\s*>\s*>\s*>\s*;", t, "UBitWidth<>")
-    a, ab, b, bb, c, cb = m.groups()
-    d["typeBits"] = ("(w : Nat) : Nat", "if w ≤ %s then %s else if w ≤ %s then %s else %s" % (a, ab, b, bb, cb))
-    d["typeBitsMaxWidth"] = ("", c)
+    _try('contain', g_contain, failed)
 
-    # ---- serialization widths
-    m = find1(r"WIDTH_BITS\s*=\s*static_cast<Long>\s*\(\s*(bitWidth\s*\(\s*WIDTH\s*\))\s*\)\s*;", t, "CI_::WIDTH_BITS")
-    d["widthBits"] = ("(width : Nat) : Nat", "bitWidth width")
-    find1(r"static\s+constexpr\s+Long\s+ACTIVE_BITS\s*=\s*(Apex::ACTIVE_BITS)\s*;", t, "RF_::ACTIVE_BITS = Apex::ACTIVE_BITS")
-    # two definitions exist (CI_: = WIDTH_BITS ; RF_: = Apex::ACTIVE_BITS); handle separately
-    m = find1(r"ACTIVE_BITS\s*=\s*(WIDTH_BITS)\s*;", t, "CI_::ACTIVE_BITS = WIDTH_BITS")
-    d["activeBits"] = ("(width : Nat) : Nat", "widthBits width")
-    m = find1(r"SERIAL_BITS\s*=\s*([^;]*ACTIVE_BITS[^;]*);", t, "RF_::SERIAL_BITS")
-    d["serialBits"] = ("(width : Nat) : Nat", cxx_to_lean(m.group(1), {"ACTIVE_BITS": "(activeBits width)"}))
-    m = find1(r"stream\.template\s+write<\s*(\w+)\s*>\s*\(\s*registry\.active\s*\)", t, "deepSaveActive write width")
-    if m.group(1) != "WIDTH_BITS":
-        raise TranslateError("deepSaveActive writes <%s>, expected WIDTH_BITS" % m.group(1))
-    m = find1(r"requested\s*=\s*stream\.template\s+read<\s*(\w+)\s*>\s*\(\s*\)", t, "deepLoadRequested read width")
-    if m.group(1) != "WIDTH_BITS":
-        raise TranslateError("deepLoadRequested reads <%s>, expected WIDTH_BITS" % m.group(1))
-    ms = re.findall(r"stream\.template\s+write<\s*(\d+)\s*>\s*\(\s*(\d+)\s*\)", t)
-    d["activityBitWrites"] = ("", "[" + ", ".join("(%s, %s)" % x for x in ms) + "]")
-    ms = re.findall(r"stream\.template\s+read<\s*(\d+)\s*>\s*\(\s*\)", t)
-    d["activityBitReads"] = ("", "[" + ", ".join(ms) + "]")
+    def g_ids():
+        # ---- id types and invalid ids
+        widths = {}
+        for name in ("Short", "Long", "StateID", "Prong"):
+            m = find1(r"^using\s+%s\s*=\s*(\w+)\s*;" % name, t, "using %s" % name, re.M)
+            ty = m.group(1)
+            seen = 0
+            while ty in widths or ty in ("Short", "Long"):
+                if ty in widths:
+                    break
+                seen += 1
+                if seen > 4:
+                    raise TranslateError("typedef chain for %s" % name)
+                ty = find1(r"using\s+%s\s*=\s*(\w+)\s*;" % ty, t, "using " + ty).group(1)
+            bits = widths.get(ty) or {"uint8_t": 8, "uint16_t": 16, "uint32_t": 32}.get(ty)
+            if bits is None:
+                raise TranslateError("id type %s = %s unsupported" % (name, ty))
+            widths[name] = bits
+            d["bits" + name] = ("", str(bits))
+        for cname, ty in (("INVALID_SHORT", "Short"), ("INVALID_LONG", "Long"), ("INVALID_STATE_ID", "StateID"), ("INVALID_PRONG", "Prong")):
+            m = find1(r"%s\s*=\s*([^;]+);" % cname, t, cname)
+            rhs = m.group(1).strip()
+            m2 = re.fullmatch(r"(\w+)\s*\(\s*-\s*1\s*\)", rhs)
+            m3 = re.fullmatch(r"UINT(8|16|32)_MAX", rhs)
+            if m2 and m2.group(1) in widths:
+                d[cname] = ("", "(2 ^ %d - 1)" % widths[m2.group(1)])
+            elif m3:
+                d[cname] = ("", "(2 ^ %s - 1)" % m3.group(1))
+            elif rhs in ("INVALID_SHORT", "INVALID_LONG"):
+                d[cname] = ("", d[rhs][1])
+            else:
+                raise TranslateError("%s = %s unsupported" % (cname, rhs))
 
-    # ---- task capacity rule, default substitution limit
-    m = find1(r"TASK_CAPACITY\s*=\s*(Config::TASK_CAPACITY\s*!=\s*INVALID_LONG\s*\?[^;]+);", t, "RF_::TASK_CAPACITY")
-    d["taskCapacity"] = ("(configured stateCount : Nat) : Nat",
-                         cxx_to_lean(m.group(1), {"Config::TASK_CAPACITY": "configured", "INVALID_LONG": "INVALID_LONG",
-                                                  "Apex::STATE_COUNT": "stateCount"}))
-    m = find1(r"using\s+Config\s*=\s*detail::G_<\s*FFSM2_FEATURE_TAG\s*,\s*EmptyContext\s*,\s*Automatic\s*,\s*(\d+)\s*FFSM2_IF_PLANS\(\s*,\s*(\w+)\s*\)\s*,\s*void\s*>\s*;",
-              t, "default Config")
-    d["defaultSubstitutionLimit"] = ("", m.group(1))
-    d["defaultTaskCapacity"] = ("", cxx_to_lean(m.group(2), {"INVALID_LONG": "INVALID_LONG"}))
-    ms = set(re.findall(r"for\s*\(\s*Long\s+i\s*=\s*0\s*;\s*i\s*(<=|<|!=)\s*SUBSTITUTION_LIMIT\s*&&\s*_core\.request\s*;\s*\+\+i\s*\)", t))
-    if ms != {"<"}:
-        raise TranslateError("substitution loops are not uniformly 'i < SUBSTITUTION_LIMIT && _core.request': %s" % sorted(ms))
-    d["substitutionLoopCount"] = ("", str(len(re.findall(r"i\s*<\s*SUBSTITUTION_LIMIT\s*&&\s*_core\.request", t))))
+    _try('ids', g_ids, failed)
 
-    # ---- halving
-    env = {"sizeof...": "n"}
-    m = find1(r"using\s+LHalfTypes\s*=\s*LowerTypes<\s*([^,]+),\s*0\s*,\s*Ts\.\.\.\s*>\s*;", t, "LHalfTypes")
-    d["halfL"] = ("(n : Nat) : Nat", cxx_to_lean(m.group(1), env))
-    m = find1(r"using\s+RHalfTypes\s*=\s*UpperTypes<\s*([^,]+),\s*0\s*,\s*Ts\.\.\.\s*>\s*;", t, "RHalfTypes")
-    d["halfR"] = ("(n : Nat) : Nat", cxx_to_lean(m.group(1), env))
-    m = find1(r"struct\s+LowerT<NHalf,\s*NIndex,\s*TFirst,\s*TRest\.\.\.>\s*final\s*\{.*?Conditional<\s*\(\s*NIndex\s*(<|<=|>|>=)\s*NHalf\s*\)\s*,\s*PrependTypes<TFirst,\s*LTypeList>\s*,\s*LTypeList\s*>", t, "LowerT keep rule")
-    d["lowerKeeps"] = ("(index half : Nat) : Bool", "decide (index %s half)" % m.group(1).replace("<=", "≤").replace(">=", "≥"))
-    m = find1(r"struct\s+UpperT<NHalf,\s*NIndex,\s*TFirst,\s*TRest\.\.\.>\s*final\s*\{.*?Conditional<\s*\(\s*NIndex\s*(<|<=|>|>=)\s*NHalf\s*\)\s*,\s*UpperTypes<NHalf,\s*NIndex\s*\+\s*1\s*,\s*TRest\.\.\.>\s*,\s*TL_<TFirst,\s*TRest\.\.\.>\s*>", t, "UpperT skip rule")
-    d["upperSkips"] = ("(index half : Nat) : Bool", "decide (index %s half)" % m.group(1).replace("<=", "≤").replace(">=", "≥"))
-    m = find1(r"struct\s+RHalfCST<NN,\s*TA,\s*NI,\s*TL_<TS\.\.\.>>\s*final\s*\{\s*using\s+Type\s*=\s*CS_<\s*([^,]+),\s*TA\s*,\s*([^,]+),\s*RHalfTypes<TS\.\.\.>\s*>\s*;", t, "RHalfCST")
-    d["rStateId"] = ("(base n : Nat) : Nat", cxx_to_lean(m.group(1), {"NN": "base", "sizeof...": "n"}))
-    d["rProngIndex"] = ("(prong n : Nat) : Nat", cxx_to_lean(m.group(2), {"NI": "prong", "sizeof...": "n"}))
-    m = find1(r"struct\s+LHalfCST<NN,\s*TA,\s*NI,\s*TL_<TS\.\.\.>>\s*final\s*\{\s*using\s+Type\s*=\s*CS_<\s*([^,]+),\s*TA\s*,\s*([^,]+),\s*LHalfTypes<TS\.\.\.>\s*>\s*;", t, "LHalfCST")
-    d["lStateId"] = ("(base n : Nat) : Nat", cxx_to_lean(m.group(1), {"NN": "base", "sizeof...": "n"}))
-    d["lProngIndex"] = ("(prong n : Nat) : Nat", cxx_to_lean(m.group(2), {"NI": "prong", "sizeof...": "n"}))
-    m = find1(r"R_PRONG\s*=\s*([^;]+);", t, "CS_::R_PRONG")
-    d["rProng"] = ("(prongIndex n : Nat) : Nat", cxx_to_lean(m.group(1), {"PRONG_INDEX": "prongIndex", "sizeof...": "n"}))
-    ops = re.findall(r"\bprong\s*(<=|>=|<|>|==|!=)\s*R_PRONG", t)
-    if not ops:
-        raise TranslateError("no 'prong < R_PRONG' dispatch found")
-    if set(ops) != {"<"}:
-        # keep the per-site list so the failing obligation can name it
-        raise TranslateError("dispatch comparisons are not uniformly 'prong < R_PRONG': %s" % ops)
-    d["goesLeft"] = ("(prong rProng : Nat) : Bool", "decide (prong < rProng)")
-    d["dispatchSites"] = ("", str(len(ops)))
+    def g_typebits():
+        # ---- UBitWidth thresholds
+        m = find1(r"using\s+UBitWidth\s*=\s*Conditional<\s*N\s*<=\s*(\d+)\s*,\s*uint(\d+)_t\s*,\s*Conditional<\s*N\s*<=\s*(\d+)\s*,\s*uint(\d+)_t\s*,"
+                  r"\s*Conditional<\s*N\s*<=\s*(\d+)\s*,\s*uint(\d+)_t\s*,\s*void\s*>\s*>\s*>\s*;", t, "UBitWidth<>")
+        a, ab, b, bb, c, cb = m.groups()
+        d["typeBits"] = ("(w : Nat) : Nat", "if w ≤ %s then %s else if w ≤ %s then %s else %s" % (a, ab, b, bb, cb))
+        d["typeBitsMaxWidth"] = ("", c)
 
-    # ---- FindImpl: N + 1 on mismatch, N on match, INVALID_LONG when exhausted
-    m = find1(r"struct\s+FindImpl<N\s*,\s*T,\s*TFirst,\s*TRest\.\.\.>\s*:\s*FindImpl<\s*([^,]+),\s*T,\s*TRest\.\.\.>", t, "FindImpl step")
-    d["findStep"] = ("(i : Nat) : Nat", cxx_to_lean(m.group(1), {"N": "i"}))
-    m = find1(r"struct\s+FindImpl<N,\s*T,\s*T,\s*Ts\.\.\.>\s*:\s*Const<\s*(\w+)\s*>", t, "FindImpl hit")
-    d["findHit"] = ("(i : Nat) : Nat", cxx_to_lean(m.group(1), {"N": "i"}))
-    m = find1(r"template<Long,\s*typename\.\.\.>\s*struct\s+FindImpl\s*:\s*Const<\s*(\w+)\s*>", t, "FindImpl miss")
-    d["findMiss"] = ("", cxx_to_lean(m.group(1), {"INVALID_LONG": "INVALID_LONG"}))
-    m = find1(r"struct\s+Find<TL_<Ts\.\.\.>,\s*T>\s*final\s*:\s*FindImpl<\s*(\d+)\s*,\s*T,\s*Ts\.\.\.>", t, "Find start")
-    d["findStart"] = ("", m.group(1))
+    _try('typebits', g_typebits, failed)
 
-    # ---- buffers
-    m = find1(r"BYTE_COUNT\s*=\s*([^;]+);", t, "StreamBufferT::BYTE_COUNT")
-    d["byteCount"] = ("(bitCapacity : Nat) : Nat", cxx_to_lean(m.group(1).replace("8u", "8"), {"contain": "contain", "BIT_CAPACITY": "bitCapacity"})
-                      if False else translate_call(m.group(1), "bitCapacity", "BIT_CAPACITY"))
-    m = find1(r"UNIT_COUNT\s*=\s*([^;]+);", t, "BitArrayT::UNIT_COUNT")
-    d["unitCount"] = ("(capacity : Nat) : Nat", translate_call(m.group(1), "capacity", "CAPACITY"))
-    return d
+    def g_serial():
+        # ---- serialization widths
+        m = find1(r"WIDTH_BITS\s*=\s*static_cast<Long>\s*\(\s*(bitWidth\s*\(\s*WIDTH\s*\))\s*\)\s*;", t, "CI_::WIDTH_BITS")
+        d["widthBits"] = ("(width : Nat) : Nat", "bitWidth width")
+        find1(r"static\s+constexpr\s+Long\s+ACTIVE_BITS\s*=\s*(Apex::ACTIVE_BITS)\s*;", t, "RF_::ACTIVE_BITS = Apex::ACTIVE_BITS")
+        # two definitions exist (CI_: = WIDTH_BITS ; RF_: = Apex::ACTIVE_BITS); handle separately
+        m = find1(r"ACTIVE_BITS\s*=\s*(WIDTH_BITS)\s*;", t, "CI_::ACTIVE_BITS = WIDTH_BITS")
+        d["activeBits"] = ("(width : Nat) : Nat", "widthBits width")
+        m = find1(r"SERIAL_BITS\s*=\s*([^;]*ACTIVE_BITS[^;]*);", t, "RF_::SERIAL_BITS")
+        d["serialBits"] = ("(width : Nat) : Nat", cxx_to_lean(m.group(1), {"ACTIVE_BITS": "(activeBits width)"}))
+        m = find1(r"stream\.template\s+write<\s*(\w+)\s*>\s*\(\s*registry\.active\s*\)", t, "deepSaveActive write width")
+        if m.group(1) != "WIDTH_BITS":
+            raise TranslateError("deepSaveActive writes <%s>, expected WIDTH_BITS" % m.group(1))
+        m = find1(r"requested\s*=\s*stream\.template\s+read<\s*(\w+)\s*>\s*\(\s*\)", t, "deepLoadRequested read width")
+        if m.group(1) != "WIDTH_BITS":
+            raise TranslateError("deepLoadRequested reads <%s>, expected WIDTH_BITS" % m.group(1))
+        ms = re.findall(r"stream\.template\s+write<\s*(\d+)\s*>\s*\(\s*(\d+)\s*\)", t)
+        d["activityBitWrites"] = ("", "[" + ", ".join("(%s, %s)" % x for x in ms) + "]")
+        ms = re.findall(r"stream\.template\s+read<\s*(\d+)\s*>\s*\(\s*\)", t)
+        d["activityBitReads"] = ("", "[" + ", ".join(ms) + "]")
 
+    _try('serial', g_serial, failed)
+
+    def g_config():
+        # ---- task capacity rule, default substitution limit
+        m = find1(r"TASK_CAPACITY\s*=\s*(Config::TASK_CAPACITY\s*!=\s*INVALID_LONG\s*\?[^;]+);", t, "RF_::TASK_CAPACITY")
+        d["taskCapacity"] = ("(configured stateCount : Nat) : Nat",
+                             cxx_to_lean(m.group(1), {"Config::TASK_CAPACITY": "configured", "INVALID_LONG": "INVALID_LONG",
+                                                      "Apex::STATE_COUNT": "stateCount"}))
+        m = find1(r"using\s+Config\s*=\s*detail::G_<\s*FFSM2_FEATURE_TAG\s*,\s*EmptyContext\s*,\s*Automatic\s*,\s*(\d+)\s*FFSM2_IF_PLANS\(\s*,\s*(\w+)\s*\)\s*,\s*void\s*>\s*;",
+                  t, "default Config")
+        d["defaultSubstitutionLimit"] = ("", m.group(1))
+        d["defaultTaskCapacity"] = ("", cxx_to_lean(m.group(2), {"INVALID_LONG": "INVALID_LONG"}))
+        ms = set(re.findall(r"for\s*\(\s*Long\s+i\s*=\s*0\s*;\s*i\s*(<=|<|!=)\s*SUBSTITUTION_LIMIT\s*&&\s*_core\.request\s*;\s*\+\+i\s*\)", t))
+        if ms != {"<"}:
+            raise TranslateError("substitution loops are not uniformly 'i < SUBSTITUTION_LIMIT && _core.request': %s" % sorted(ms))
+        d["substitutionLoopCount"] = ("", str(len(re.findall(r"i\s*<\s*SUBSTITUTION_LIMIT\s*&&\s*_core\.request", t))))
+
+    _try('config', g_config, failed)
+
+    def g_halving():
+        # ---- halving
+        env = {"sizeof...": "n"}
+        m = find1(r"using\s+LHalfTypes\s*=\s*LowerTypes<\s*([^,]+),\s*0\s*,\s*Ts\.\.\.\s*>\s*;", t, "LHalfTypes")
+        d["halfL"] = ("(n : Nat) : Nat", cxx_to_lean(m.group(1), env))
+        m = find1(r"using\s+RHalfTypes\s*=\s*UpperTypes<\s*([^,]+),\s*0\s*,\s*Ts\.\.\.\s*>\s*;", t, "RHalfTypes")
+        d["halfR"] = ("(n : Nat) : Nat", cxx_to_lean(m.group(1), env))
+        m = find1(r"struct\s+LowerT<NHalf,\s*NIndex,\s*TFirst,\s*TRest\.\.\.>\s*final\s*\{.*?Conditional<\s*\(\s*NIndex\s*(<|<=|>|>=)\s*NHalf\s*\)\s*,\s*PrependTypes<TFirst,\s*LTypeList>\s*,\s*LTypeList\s*>", t, "LowerT keep rule")
+        d["lowerKeeps"] = ("(index half : Nat) : Bool", "decide (index %s half)" % m.group(1).replace("<=", "≤").replace(">=", "≥"))
+        m = find1(r"struct\s+UpperT<NHalf,\s*NIndex,\s*TFirst,\s*TRest\.\.\.>\s*final\s*\{.*?Conditional<\s*\(\s*NIndex\s*(<|<=|>|>=)\s*NHalf\s*\)\s*,\s*UpperTypes<NHalf,\s*NIndex\s*\+\s*1\s*,\s*TRest\.\.\.>\s*,\s*TL_<TFirst,\s*TRest\.\.\.>\s*>", t, "UpperT skip rule")
+        d["upperSkips"] = ("(index half : Nat) : Bool", "decide (index %s half)" % m.group(1).replace("<=", "≤").replace(">=", "≥"))
+        m = find1(r"struct\s+RHalfCST<NN,\s*TA,\s*NI,\s*TL_<TS\.\.\.>>\s*final\s*\{\s*using\s+Type\s*=\s*CS_<\s*([^,]+),\s*TA\s*,\s*([^,]+),\s*RHalfTypes<TS\.\.\.>\s*>\s*;", t, "RHalfCST")
+        d["rStateId"] = ("(base n : Nat) : Nat", cxx_to_lean(m.group(1), {"NN": "base", "sizeof...": "n"}))
+        d["rProngIndex"] = ("(prong n : Nat) : Nat", cxx_to_lean(m.group(2), {"NI": "prong", "sizeof...": "n"}))
+        m = find1(r"struct\s+LHalfCST<NN,\s*TA,\s*NI,\s*TL_<TS\.\.\.>>\s*final\s*\{\s*using\s+Type\s*=\s*CS_<\s*([^,]+),\s*TA\s*,\s*([^,]+),\s*LHalfTypes<TS\.\.\.>\s*>\s*;", t, "LHalfCST")
+        d["lStateId"] = ("(base n : Nat) : Nat", cxx_to_lean(m.group(1), {"NN": "base", "sizeof...": "n"}))
+        d["lProngIndex"] = ("(prong n : Nat) : Nat", cxx_to_lean(m.group(2), {"NI": "prong", "sizeof...": "n"}))
+        m = find1(r"R_PRONG\s*=\s*([^;]+);", t, "CS_::R_PRONG")
+        d["rProng"] = ("(prongIndex n : Nat) : Nat", cxx_to_lean(m.group(1), {"PRONG_INDEX": "prongIndex", "sizeof...": "n"}))
+        ops = re.findall(r"\bprong\s*(<=|>=|<|>|==|!=)\s*R_PRONG", t)
+        if not ops:
+            raise TranslateError("no 'prong < R_PRONG' dispatch found")
+        if set(ops) != {"<"}:
+            # keep the per-site list so the failing obligation can name it
+            raise TranslateError("dispatch comparisons are not uniformly 'prong < R_PRONG': %s" % ops)
+        d["goesLeft"] = ("(prong rProng : Nat) : Bool", "decide (prong < rProng)")
+        d["dispatchSites"] = ("", str(len(ops)))
+
+    _try('halving', g_halving, failed)
+
+    def g_find():
+        # ---- FindImpl: N + 1 on mismatch, N on match, INVALID_LONG when exhausted
+        m = find1(r"struct\s+FindImpl<N\s*,\s*T,\s*TFirst,\s*TRest\.\.\.>\s*:\s*FindImpl<\s*([^,]+),\s*T,\s*TRest\.\.\.>", t, "FindImpl step")
+        d["findStep"] = ("(i : Nat) : Nat", cxx_to_lean(m.group(1), {"N": "i"}))
+        m = find1(r"struct\s+FindImpl<N,\s*T,\s*T,\s*Ts\.\.\.>\s*:\s*Const<\s*(\w+)\s*>", t, "FindImpl hit")
+        d["findHit"] = ("(i : Nat) : Nat", cxx_to_lean(m.group(1), {"N": "i"}))
+        m = find1(r"template<Long,\s*typename\.\.\.>\s*struct\s+FindImpl\s*:\s*Const<\s*(\w+)\s*>", t, "FindImpl miss")
+        d["findMiss"] = ("", cxx_to_lean(m.group(1), {"INVALID_LONG": "INVALID_LONG"}))
+        m = find1(r"struct\s+Find<TL_<Ts\.\.\.>,\s*T>\s*final\s*:\s*FindImpl<\s*(\d+)\s*,\s*T,\s*Ts\.\.\.>", t, "Find start")
+        d["findStart"] = ("", m.group(1))
+
+    _try('find', g_find, failed)
+
+    def g_buffers():
+        # ---- buffers
+        m = find1(r"BYTE_COUNT\s*=\s*([^;]+);", t, "StreamBufferT::BYTE_COUNT")
+        d["byteCount"] = ("(bitCapacity : Nat) : Nat", cxx_to_lean(m.group(1).replace("8u", "8"), {"contain": "contain", "BIT_CAPACITY": "bitCapacity"})
+                          if False else translate_call(m.group(1), "bitCapacity", "BIT_CAPACITY"))
+        m = find1(r"UNIT_COUNT\s*=\s*([^;]+);", t, "BitArrayT::UNIT_COUNT")
+        d["unitCount"] = ("(capacity : Nat) : Nat", translate_call(m.group(1), "capacity", "CAPACITY"))
+
+
+
+    _try('buffers', g_buffers, failed)
+
+    return d, failed
 
 def translate_call(expr, leanvar, cxxvar):
     m = re.fullmatch(r"\s*contain\s*\(\s*%s\s*,\s*(\d+)u?\s*\)\s*" % cxxvar, expr)
@@ -369,18 +407,57 @@ def amalgamate_dev(root):
     return "\n".join(chunks)
 
 
+GROUPS = {
+    "ids": ["bitsShort", "bitsLong", "bitsStateID", "bitsProng", "INVALID_SHORT", "INVALID_LONG", "INVALID_STATE_ID", "INVALID_PRONG"],
+    "bitwidth": ["bitWidth", "bitWidthArms"],
+    "contain": ["contain"],
+    "typebits": ["typeBits", "typeBitsMaxWidth"],
+    "serial": ["widthBits", "activeBits", "serialBits", "activityBitWrites", "activityBitReads"],
+    "config": ["taskCapacity", "defaultSubstitutionLimit", "defaultTaskCapacity", "substitutionLoopCount"],
+    "halving": ["halfL", "halfR", "lowerKeeps", "upperSkips", "lStateId", "lProngIndex", "rStateId", "rProngIndex", "rProng", "goesLeft", "dispatchSites"],
+    "find": ["findStep", "findHit", "findMiss", "findStart"],
+    "buffers": ["byteCount", "unitCount"],
+}
+FALLBACK = os.path.join(HERE, "gen_fallback.json")
+
+
 def main():
+    """Exit 0 always when a Consts.lean could be written; the per-group status (which constructs could
+    not be translated, or differ between the two header variants) goes to Gen/status.json.  A failed
+    group keeps the last known-good definitions (tools/gen_fallback.json, recorded on the pinned
+    tree) so that the rest of the library still builds; check.py treats every property that depends
+    on a failed group as having a broken obligation."""
     os.makedirs(OUT, exist_ok=True)
+    failed = {}
     try:
-        inc = extract(read(os.path.join(REPO, "include", "ffsm2", "machine.hpp")), "include")
-        dev = extract(amalgamate_dev(REPO), "development")
-        if inc != dev:
-            diff = [k for k in ORDER if inc.get(k) != dev.get(k)]
-            raise TranslateError("include/ffsm2/machine.hpp and development/ disagree on: %s" % diff)
-        text = render(inc, "include/ffsm2/machine.hpp (== development/ffsm2/**)")
-    except TranslateError as e:
-        print("TRANSLATE-FAILED: %s" % e)
-        return 2
+        inc, f1 = extract(read(os.path.join(REPO, "include", "ffsm2", "machine.hpp")), "include")
+        dev, f2 = extract(amalgamate_dev(REPO), "development")
+    except Exception as e:  # unreadable sources etc.
+        inc, dev, f1, f2 = {}, {}, {g: "sources unreadable: %s" % e for g in GROUPS}, {}
+    for g, msg in f1.items():
+        failed[g] = "include/ffsm2/machine.hpp: " + msg
+    for g, msg in f2.items():
+        failed.setdefault(g, "development/: " + msg)
+    for g, keys in GROUPS.items():
+        if g not in failed and any(inc.get(k) != dev.get(k) for k in keys):
+            failed[g] = "include/ffsm2/machine.hpp and development/ disagree on %s" % [k for k in keys if inc.get(k) != dev.get(k)]
+    if "--record-fallback" in sys.argv:
+        if failed:
+            print("cannot record fallback: %s" % failed)
+            return 2
+        with open(FALLBACK, "w") as f:
+            json.dump({k: list(v) for k, v in inc.items()}, f, indent=1, sort_keys=True)
+    fb = {}
+    if failed:
+        fb = {k: tuple(v) for k, v in json.load(open(FALLBACK)).items()}
+    d = dict(inc)
+    for g in failed:
+        for k in GROUPS[g]:
+            d[k] = fb[k]
+    note = "include/ffsm2/machine.hpp (== development/ffsm2/**)"
+    if failed:
+        note += "; groups NOT translated this run (last known-good definitions kept): %s" % sorted(failed)
+    text = render(d, note)
     path = os.path.join(OUT, "Consts.lean")
     old = open(path).read() if os.path.exists(path) else None
     if old != text:
@@ -389,6 +466,10 @@ def main():
         print("translate: wrote %s" % path)
     else:
         print("translate: %s unchanged" % path)
+    with open(os.path.join(OUT, "status.json"), "w") as f:
+        json.dump({"failed": failed}, f, indent=1, sort_keys=True)
+    for g, msg in sorted(failed.items()):
+        print("TRANSLATE-FAILED group=%s: %s" % (g, msg))
     return 0
 
 
